@@ -48,5 +48,8 @@ Proof.
   exists (fun v => negb (Z.eqb v 0)). split; [reflexivity|]. intros [|]; reflexivity.
 Qed.
 
+Lemma tdata_unbound_uniform : unbound_reads_uniform tdata.
+Proof. intros x w0. reflexivity. Qed.
+
 Lemma tdata_list_pure : list_building_pure tdata.
 Proof. exists (fun l => fold_left Z.add l 0). split; intros; reflexivity. Qed.
